@@ -256,6 +256,9 @@ def check(facts, rep, tier, cfg):
     for v in sub.violations:
         rep.bad("C07.R6", v["key"].split("/", 1)[1], v["where"], v["msg"])
 
+    rep.rule("C07.R8", "the accept queue is a bounded queue whose capacity is the configured stream_buffer_size")
+    check_capacity_role(facts, rep, crate, "C07.R8", "MuxStream", "Options.stream_buffer_size", "accept queue")
+
 
 
 def rules_establish_ok(facts, b, tr, site):
